@@ -139,3 +139,45 @@ def check_C10(res, scratch, tier, seed):
         run_family(res, scratch, "F3", mcgram_cfg([1, 2], [11, 12], 3, 2, 0, False, [0], False), mk, builds=builds, mine=mine, timeout=3000)
     res.cov["distinct_nontrivial"] = sum(f["vectors"] for f in res.notes["families"])
     res.cov["exhaustive"] = True
+
+
+# ------------------------------------------------------------------ recovery families (C06, C08)
+def recov_families(tier, prop):
+    if prop == "C06":     # no recovery-cost table needed
+        fams = [("E2", mcgram_cfg([1, 2], [11, 12], 2, 2, 4, True, [0], False)),
+                ("E2r3", mcgram_cfg([1, 2], [11], 2, 3, 4, True, [0], False))]
+        if tier == "thorough":
+            fams += [("E3", mcgram_cfg([1, 2], [11, 12], 3, 2, 4, True, [0], False)),
+                     ("E2l5", mcgram_cfg([1, 2], [11, 12], 2, 2, 5, True, [0], False))]
+        return fams
+    fams = [("E2c", mcgram_cfg([1, 2], [11, 12], 2, 2, 3, True, [0], False, recov=3)),
+            ("E1r3c", mcgram_cfg([1], [11], 2, 3, 4, True, [0], False, recov=4))]
+    if tier == "thorough":
+        fams += [("E2c4", mcgram_cfg([1, 2], [11, 12], 2, 2, 4, True, [0], False, recov=4)),
+                 ("E2r3c", mcgram_cfg([1, 2], [11], 2, 3, 4, True, [0], False, recov=4)),
+                 ("E3c", mcgram_cfg([1], [11, 12], 3, 2, 4, True, [0], False, recov=4))]
+    return fams
+
+
+def check_recov(res, scratch, tier, seed, prop, rule):
+    builds = std_builds(scratch, tier)
+    res.cov["trusted_base"] = TB
+    res.cov["rule"] = rule
+    matrix = [(la, 1, 0, rec, m, 0) for la in (0, 1, 2) for rec, m in ((0, 3), (1, 1), (1, 2), (1, 3), (1, 4))]
+    mk = lambda vec: blocks_from_vector(vec, matrix, codemap="ascii", mems=(0, 1), want_trees=False)
+    for tag, cfg in recov_families(tier, prop):
+        run_family(res, scratch, tag, cfg, mk, builds=builds, mine=only(prop), timeout=3000)
+    res.cov["exhaustive"] = True
+
+
+def check_C06(res, scratch, tier, seed):
+    check_recov(res, scratch, tier, seed, "C06",
+                "every grammar of the families with `error' allowed in rules (strict-accepted ones carry the expectation) x every input up to the bound; "
+                "TLC computes Deriv!FirstOffending by the prefix-span fixed point (error as ordinary terminal); replay checks the first callback's error "
+                "token and attribute, (-1,NULL,-1,NULL) with recovery off, range/attribute/monotonicity clauses with recovery on, recovery_match 1..4, lookahead 0..2")
+
+
+def check_C08(res, scratch, tier, seed):
+    check_recov(res, scratch, tier, seed, "C08",
+                "same families: TLC computes Repair!MinSimpleRecoveryCost (back to p<=k with error expected, shift error, skip to q>=k, next recovery_match "
+                "tokens incl. end of input shiftable) from Viable/IsSentence only; the first callback must not report more ignored tokens")
